@@ -226,8 +226,11 @@ Pin(u, v) ==
     ELSE "free"
 
 \* the clause of the statement that an answer True / False to eq(u, v) contradicts ("" = admitted)
-ClauseIfT(u, v) == IF Pin(u, v) = "F" THEN "equal_despite_" \o Why(u, v) ELSE ""
-ClauseIfF(u, v) == IF Pin(u, v) = "T" THEN (IF StructCopy(u, v) THEN "copy_unequal" ELSE "plain_equal_values_unequal") ELSE ""
+\* (ClauseIfTP / ClauseIfFP: the same with Pin(u, v) handed in, for callers that need it more than once)
+ClauseIfTP(u, v, pin) == IF pin = "F" THEN "equal_despite_" \o Why(u, v) ELSE ""
+ClauseIfFP(u, v, pin) == IF pin = "T" THEN (IF StructCopy(u, v) THEN "copy_unequal" ELSE "plain_equal_values_unequal") ELSE ""
+ClauseIfT(u, v) == ClauseIfTP(u, v, Pin(u, v))
+ClauseIfF(u, v) == ClauseIfFP(u, v, Pin(u, v))
 
 \* ---------------------------------------------------------------------------------------------
 \* Realisations: concrete descriptors and the value they denote
